@@ -49,8 +49,20 @@ class CountingSink(io.TextIOBase):
         return len(s)
 
 
+def configure_process():
+    """Process-wide configuration of a variant run (vmon.run VARIANTS)."""
+    if os.environ.get('VMON_LOGGING') == 'debug':
+        # every logger enabled down to DEBUG (what logging.basicConfig(level=
+        # logging.DEBUG) in an application does); records go nowhere
+        import logging
+        logging.basicConfig(level=logging.DEBUG,
+                            handlers=[logging.NullHandler()], force=True)
+        logging.getLogger().setLevel(logging.DEBUG)
+
+
 def main():
     setup_paths()
+    configure_process()
     prop = sys.argv[1].upper()
     from vmon.core.ctx import Ctx
     mod = importlib.import_module('vmon.props.%s' % prop.lower())
@@ -130,6 +142,9 @@ def main():
     if obs.WARNINGS_AS_ERRORS:
         for k, v in obs.STATS.items():
             res['counters'][k] = res['counters'].get(k, 0) + v
+    if os.environ.get('VMON_LOGGING') == 'debug':
+        res['counters']['evaluations_with_debug_logging_enabled'] = \
+            res['counters'].get('evaluations', 0)
     if not __debug__:
         res['counters']['evaluations_in_an_optimised_interpreter'] = \
             res['counters'].get('evaluations', 0)
